@@ -7,6 +7,7 @@
 -/
 import NetflowModel.Lemmas.A7ExportStream
 import NetflowModel.Generated
+import NetflowModel.Lemmas.G1Arms
 namespace Netflow.Props
 open Netflow Netflow.A7 Preds
 
@@ -233,5 +234,13 @@ theorem C10_full_fails : ¬ C10_full := by
   have := C10_full_reexport H _ _ _ _ _ C10_fails_enterprise
   revert this
   decide +kernel
+
+/-- **C10.G** (regenerated on every run) the value encoders of the model ARE the interpretations of the arms of
+    `FieldValue::to_be_bytes` and `DataNumber::to_be_bytes` as read from data_number.rs now. -/
+theorem C10_export_arms_generated (c : ValueCfg) (v : FieldValue) :
+    v.toBE c = toBEBy Generated.exportArms c v := G1.toBE_eq_generated c v
+
+theorem C10_number_export_arms_generated (d : DataNumber) :
+    d.toBE = dnToBEBy Generated.dnExportArms d := G1.dnToBE_eq_generated d
 
 end Netflow.Props
